@@ -20,7 +20,7 @@ RULE = ("(a) evolution: G-schema sets emitted twice (newer = as generated, older
         "unchanged. (b) interleaving: reference serialisations with well-formed unknown records (numbers not in the "
         "schema up to 2**29-1, wire types 0/1/2/5) inserted at every kind of position (top level, and inside a plain "
         "sub-message); known fields must decode as without them and the unknown records must be re-emitted byte-for-byte "
-        "in arrival order. distinct = distinct (schema pair, type, tree) / (type, encoding) cases.")
+        "in arrival order. (c) histories: a serialisation delivered in two pieces parsed onto ONE object keeps the unknown records of both; decoding more data into a copy / deepcopy never changes what the original re-emits (and vice versa). Unknown numbers include the schema-reserved window 19000..19999. distinct = distinct (schema pair, type, tree) / (type, encoding) cases.")
 ASSUMPTIONS = [
     "older schemas only delete fields (types, numbers and kinds of surviving fields are unchanged)",
     "unknown records are never placed inside map entries (upb treats such entries specially; not in the spec)",
